@@ -236,23 +236,46 @@ func geomOf(s *exact.Shape, t Xf, opts *geometry.IndexOptions) geometry.Geometry
 
 // newPolyScribbled / newLineScribbled build from a private copy of the
 // positions and overwrite that copy afterwards.
+// spareCopy copies ps into a slice with two spare positions behind its length
+// (as a caller has who cuts several rings out of one buffer); spareIntact
+// tells whether they still hold what was put there.
+var spareMark = geometry.Point{X: -4.25e9, Y: 8.5e9}
+
+func spareCopy(ps []geometry.Point) []geometry.Point {
+	cp := make([]geometry.Point, len(ps), len(ps)+2)
+	copy(cp, ps)
+	sp := cp[len(ps):cap(cp)]
+	sp[0], sp[1] = spareMark, spareMark
+	return cp
+}
+
+func spareIntact(cp []geometry.Point) {
+	sp := cp[len(cp):cap(cp)]
+	if len(sp) == 2 && (sp[0] != spareMark || sp[1] != spareMark) {
+		panic(fmt.Sprintf("a constructor wrote beyond the length of the slice it was given (spare capacity now %v)", sp))
+	}
+}
+
 func newPolyScribbled(pts []geometry.Point, holes [][]geometry.Point, opts *geometry.IndexOptions) *geometry.Poly {
-	cp := append([]geometry.Point(nil), pts...)
+	cp := spareCopy(pts)
 	var hs [][]geometry.Point
 	for _, h := range holes {
-		hs = append(hs, append([]geometry.Point(nil), h...))
+		hs = append(hs, spareCopy(h))
 	}
 	p := geometry.NewPoly(cp, hs, opts)
+	spareIntact(cp)
 	scribble(cp)
 	for _, h := range hs {
+		spareIntact(h)
 		scribble(h)
 	}
 	return p
 }
 
 func newLineScribbled(pts []geometry.Point, opts *geometry.IndexOptions) *geometry.Line {
-	cp := append([]geometry.Point(nil), pts...)
+	cp := spareCopy(pts)
 	l := geometry.NewLine(cp, opts)
+	spareIntact(cp)
 	scribble(cp)
 	return l
 }
